@@ -496,3 +496,33 @@ Lemma example_folds :
   live_fold true [ERetransStop; EBroadcastSpend SKCsv (Some "tx"%string)] = false /\
   starts_ok true [ERetransStart] = false /\ starts_ok true [ERetransStop; ERetransStart] = true.
 Proof. repeat split; reflexivity. Qed.
+
+(* ---------- which message is retransmitted ---------- *)
+(* SendMessageWithRetryAction hands NextMessage to the new retransmitter and sends it at once *)
+Lemma retry_sends_next_msg d w r w' es :
+  act_send_message_retry d w = (r, w', es) -> existsb is_start es = true ->
+  exists m, d_next_msg d = Some m /\ es = [ERetransStart; ESend (d_peer d) m] /\ r = (Ev_Succeeded, d).
+Proof.
+  intros H Hs. unfold act_send_message_retry in H. msym; list_simpl; try discriminate Hs.
+  eexists. split; [reflexivity|]. split; reflexivity.
+Qed.
+
+(* when CreateAndBroadcastOpeningTransaction really builds the opening transaction (no
+   opening_tx_broadcasted message is in the swap data yet) and succeeds, NextMessage is the
+   opening_tx_broadcasted message it stores *)
+Lemma opening_sets_next_msg tc d w d' w' es :
+  act_create_and_broadcast_opening tc d w = ((Ev_Succeeded, d'), w', es) -> d_otb d = None ->
+  exists o, d_otb d' = Some o /\ d_next_msg d' = Some (MOtb o) /\
+            existsb (fun e => match e with EBroadcastOpening _ _ _ _ _ _ (Some _) => true | _ => false end) es = true.
+Proof.
+  intros H Hn. autounfold with actions in H. rewrite Hn in H. msym; list_simpl; try discriminate.
+  eexists. split; [reflexivity|]. split; [reflexivity|]. cbn. rewrite ?orb_true_r. reflexivity.
+Qed.
+
+Theorem announcement_message_partial (tc : tl_consts) :
+  (forall d w r w' es, act_send_message_retry d w = (r, w', es) -> existsb is_start es = true ->
+     exists m, d_next_msg d = Some m /\ es = [ERetransStart; ESend (d_peer d) m] /\ r = (Ev_Succeeded, d)) /\
+  (forall d w d' w' es, act_create_and_broadcast_opening tc d w = ((Ev_Succeeded, d'), w', es) -> d_otb d = None ->
+     exists o, d_otb d' = Some o /\ d_next_msg d' = Some (MOtb o) /\
+               existsb (fun e => match e with EBroadcastOpening _ _ _ _ _ _ (Some _) => true | _ => false end) es = true).
+Proof. split; [apply retry_sends_next_msg|apply opening_sets_next_msg]. Qed.
